@@ -1,5 +1,5 @@
 # Texts for MANIFEST.json that are not per property (per-property texts live in vlib/props/*.py under "meta").
-HOOK_COMMITS = ["4e61baf", "39445bc", "4a3f00d", "f8ba652", "f66a3c2", "c597d22", "97a6f39", "4409171", "eccba09"]
+HOOK_COMMITS = ["4e61baf", "39445bc", "4a3f00d", "f8ba652", "f66a3c2", "c597d22", "97a6f39", "4409171", "eccba09", "5a6d740"]
 PENDING_REASON = "not claimed yet: its model and check are still being built (DESIGN.md §8 build order); the technique applies"
 NOT_APPLICABLE = {}
 # Properties whose check has been reviewed and passes on the unchanged tree; only these are claimed in MANIFEST.json.
